@@ -19,6 +19,7 @@ import (
 	"os"
 	"sort"
 	"strings"
+	"time"
 )
 
 // engine is one sub-engine of the driver.
@@ -36,7 +37,32 @@ var engines = map[string]*engine{}
 
 func register(e *engine) { engines[e.name] = e }
 
+// watchdog: the in-process aggregator engine must finish a case within this time; a change that makes the
+// work grow with the EXPANDED size of a tree (C05: "time proportional to the number of distinct objects")
+// would otherwise stall a shard for hours on a generated git bomb. After one timeout the rest of the shard
+// is skipped (the stuck goroutine cannot be stopped); one failing input is enough.
+var watchdogEngines = map[string]time.Duration{"graph": 60 * time.Second}
+var shardPoisoned bool
+
 func safeExec(e *engine, in []string) (res []string) {
+	if d, ok := watchdogEngines[e.name]; ok {
+		if shardPoisoned {
+			return []string{"skipped"}
+		}
+		ch := make(chan []string, 1)
+		go func() { ch <- safeExec1(e, in) }()
+		select {
+		case r := <-ch:
+			return r
+		case <-time.After(d):
+			shardPoisoned = true
+			return []string{"timeout"}
+		}
+	}
+	return safeExec1(e, in)
+}
+
+func safeExec1(e *engine, in []string) (res []string) {
 	defer func() {
 		if p := recover(); p != nil {
 			res = []string{"panic"}
